@@ -550,8 +550,10 @@ def fun_body(ctx, stmts):
                 if v.get('kind') != 'VarDecl':
                     raise Unsupported('decl ' + str(v.get('kind')))
                 init = [x for x in v.get('inner', []) if x.get('kind') != 'FullComment']
-                w, s = SCALAR_W.get(qual(v['type'])), False
-                if w is None or qual(v['type']) in SIGNED:
+                lt = ' '.join(x for x in qual(v['type']).split() if x not in ('const', 'volatile'))    # `const uint32_t n = ...`
+                lt = ELEM_ALIAS.get(lt, lt)
+                w, s = SCALAR_W.get(lt), False
+                if w is None or lt in SIGNED:
                     raise Unsupported('local type ' + qual(v['type']))
                 ctx.env[v['name']] = ('cast', w, num(expr(init[0], ctx))) if init else ('const', 0)
                 ctx.env['#w_' + v['name']] = w
